@@ -130,3 +130,38 @@ Proof.
   unfold log_action. cbn [is_log is_round]. eexists; eexists; split; [reflexivity|]. split; [cbn [cands set_actions set_rounds]; apply ssn_snap|reflexivity].
 Qed.
 End Audit.
+
+(* ---- every election or exclusion the record lists names a candidate whose status changes at that step (per operation) ---- *)
+Section AuditOps.
+Variable A : arith.
+Variable cfg : config.
+Notation est := (est A).
+
+(* Candidate.elect(): one 'elect' action, named after the candidate, whose snapshot is the state before with that candidate
+   (and nobody else) elected with the given pending flag; an unknown id crashes and logs nothing *)
+Theorem elect_logs_the_change i msg p (s : est) :
+  match find_cand A (cands s) i with
+  | Some c => exists sn, actions (elect A cfg i msg p s) = mkAction TElect (msg ++ ": " ++ cname c) (round s) (Some sn) :: actions s /\
+                         ssn A sn = stl A (upd_cand A i (fun x => with_st x Elected (Some p)) (cands s)) /\
+                         cands (elect A cfg i msg p s) = upd_cand A i (fun x => with_st x Elected (Some p)) (cands s)
+  | None => actions (elect A cfg i msg p s) = actions s /\ crashed (elect A cfg i msg p s) = true
+  end.
+Proof.
+  unfold elect. destruct (find_cand A (cands s) i) as [c|].
+  - unfold log_action. cbn [is_log is_round]. eexists. split; [reflexivity|]. split; [rewrite ssn_snap; reflexivity|reflexivity].
+  - split; [reflexivity|]. unfold crashed, set_crash. cbn. destruct (crash s); reflexivity.
+Qed.
+
+Theorem defeat_logs_the_change i msg (s : est) :
+  match find_cand A (cands s) i with
+  | Some c => exists sn, actions (defeat A cfg i msg s) = mkAction TDefeat (msg ++ ": " ++ cname c) (round s) (Some sn) :: actions s /\
+                         ssn A sn = stl A (upd_cand A i (fun x => with_st x Defeated (cpend x)) (cands s)) /\
+                         cands (defeat A cfg i msg s) = upd_cand A i (fun x => with_st x Defeated (cpend x)) (cands s)
+  | None => actions (defeat A cfg i msg s) = actions s /\ crashed (defeat A cfg i msg s) = true
+  end.
+Proof.
+  unfold defeat. destruct (find_cand A (cands s) i) as [c|].
+  - unfold log_action. cbn [is_log is_round]. eexists. split; [reflexivity|]. split; [rewrite ssn_snap; reflexivity|reflexivity].
+  - split; [reflexivity|]. unfold crashed, set_crash. cbn. destruct (crash s); reflexivity.
+Qed.
+End AuditOps.
